@@ -337,6 +337,7 @@ func c11Inconclusivef(format string, a ...any) error {
 
 type c11CrashStats struct {
 	points, states, loads, midStates, betweenMid int
+	secondLives                                  int
 	ops                                          int
 	multiWrite                                   bool
 	maxWrite                                     int
@@ -582,6 +583,10 @@ func c11RunCrashCase(t *testing.T, sc *c11CrashScenario) (vios []pbt.Violation, 
 		maxB, maxMid = 120, 8
 	}
 	lastPoint := -1
+	maxSecond := 60
+	if pbt.Thorough() {
+		maxSecond = 400
+	}
 	eerr := crashfs.Enumerate(dataDir, initial, ops, c11Cuts(rng, maxB, maxMid), func(s crashfs.State) bool {
 		if s.Point != lastPoint {
 			lastPoint = s.Point
@@ -625,6 +630,16 @@ func c11RunCrashCase(t *testing.T, sc *c11CrashScenario) (vios []pbt.Violation, 
 			}
 			return fmt.Sprintf("crash point %d (after %s, before %s); disk state: %s", s.Point, prev, next, s.Desc)
 		}
+		// a temporary file of the interrupted snapshot is still in the directory
+		leftover := false
+		for n := range s.Files {
+			if n != "silences" && n != "nflog" {
+				leftover = true
+			}
+		}
+		if s.Mid && st.states%3 != 0 { // whole-write states always, cut states sampled
+			leftover = false
+		}
 		// silences
 		st.loads += 2
 		k := seg("silences")
@@ -650,11 +665,33 @@ func c11RunCrashCase(t *testing.T, sc *c11CrashScenario) (vios []pbt.Violation, 
 				return
 			}
 			d1 := c11DiffSil(dSil[k], q, ignoreSil)
-			if d1 == "" {
-				return
+			d2 := ""
+			if d1 != "" {
+				d2 = c11DiffSil(dSil[k2], q, ignoreSil)
 			}
-			d2 := c11DiffSil(dSil[k2], q, ignoreSil)
-			if d2 == "" {
+			if d1 == "" || d2 == "" {
+				// second life: the restarted process takes its own (shutdown) snapshot in the directory the crash
+				// left behind, leftover temporary files included, and the process after it must start with
+				// exactly that state
+				if leftover && st.secondLives < maxSecond {
+					st.secondLives++
+					stopc := make(chan struct{})
+					close(stopc)
+					sl.Maintenance(time.Hour, filepath.Join(cand, "silences"), stopc, nil)
+					sl3, lerr := c11NewSilences(ret, nil, filepath.Join(cand, "silences"))
+					if lerr != nil {
+						vios = append(vios, pbt.V("crash-refuses-to-start", "silences: after the crash at %s the restarted process took a shutdown snapshot; the process after it refuses that file: %v", where(), lerr).With("store", "silences").With("second_life", true))
+						return
+					}
+					q3, qerr := c11QuerySil(sl3)
+					if qerr != nil {
+						vios = append(vios, pbt.V("crash-query-error", "silences: Query fails in the second life after %s: %v", where(), qerr).With("store", "silences"))
+						return
+					}
+					if d := c11DiffSil(q, q3, ignoreSil); d != "" {
+						vios = append(vios, pbt.V("crash-torn-state", "silences: after the crash at %s the restarted process (holding %d silences) took a shutdown snapshot, but the process after it starts with another state: %s", where(), len(q), d).With("store", "silences").With("second_life", true))
+					}
+				}
 				return
 			}
 			vios = append(vios, pbt.V("crash-torn-state", "silences: at %s the loader starts with %d silences, which is neither the state of snapshot %d (%s) nor of snapshot %d (%s)",
@@ -684,11 +721,30 @@ func c11RunCrashCase(t *testing.T, sc *c11CrashScenario) (vios []pbt.Violation, 
 				return
 			}
 			d1 := c11DiffNf(dNf[k], q, freeNf[k])
-			if d1 == "" {
-				return
+			d2, free := "", freeNf[k]
+			if d1 != "" {
+				d2, free = c11DiffNf(dNf[k2], q, freeNf[k2]), freeNf[k2]
 			}
-			d2 := c11DiffNf(dNf[k2], q, freeNf[k2])
-			if d2 == "" {
+			if d1 == "" || d2 == "" {
+				if leftover && st.secondLives < maxSecond {
+					st.secondLives++
+					stopc := make(chan struct{})
+					close(stopc)
+					nl.Maintenance(time.Hour, filepath.Join(cand, "nflog"), stopc, nil)
+					nl3, lerr := c11NewLog(ret, nil, filepath.Join(cand, "nflog"))
+					if lerr != nil {
+						vios = append(vios, pbt.V("crash-refuses-to-start", "nflog: after the crash at %s the restarted process took a shutdown snapshot; the process after it refuses that file: %v", where(), lerr).With("store", "nflog").With("second_life", true))
+						return
+					}
+					q3, qerr := c11QueryNf(nl3, &u)
+					if qerr != nil {
+						vios = append(vios, pbt.V("crash-query-error", "nflog: Query fails in the second life after %s: %v", where(), qerr).With("store", "nflog"))
+						return
+					}
+					if d := c11DiffNf(q, q3, free); d != "" {
+						vios = append(vios, pbt.V("crash-torn-state", "nflog: after the crash at %s the restarted process took a shutdown snapshot, but the process after it answers differently: %s", where(), d).With("store", "nflog").With("second_life", true))
+					}
+				}
 				return
 			}
 			vios = append(vios, pbt.V("crash-torn-state", "nflog: at %s the loader's answers are neither the state of snapshot %d (%s) nor of snapshot %d (%s)",
@@ -718,7 +774,7 @@ func c11FlagInt(name string, def int) int {
 }
 
 func TestC11Crash(t *testing.T) {
-	const rule = "real time, strace: a sub-process loads a generated OLD state (hand-written files incl. old formats and entries past expiry; or no file), applies generated changes through the real API (Set/edit/replace/Expire/Merge, Log/notify pipeline/Merge, bulk up to 300, thorough 4000 entries = single writes of up to several 100 KiB), then runs the real Maintenance(interval, file, stopc, nil) of both stores: shutdown snapshot only, or one tick snapshot + further changes + shutdown snapshot. The traced history of the data directory is replayed into the file-system model (durable + pending bytes per inode; fsync makes durable; rename rebinds atomically and may precede unsynced data); for EVERY crash point between two operations every disk state is materialised (pending changes applied as a prefix; the next write cut at 0, at every record boundary (sampled above 40/120) and at mid-record offsets) and the real loaders New(SnapshotFile) are started: must not error, and Query (all silences / every key of the log universe, proto.Equal) must equal EXACTLY the dump of the snapshot completed before the crash point or of the one in progress; entries past their expiry are free. Unknown data-modifying syscalls, unexpected snapshot counts, helper failures => inconclusive. Non-trivial: >=1 enumerated state with a mid-record cut between the first write and the last rename. Distinct by scenario digest."
+	const rule = "real time, strace: a sub-process loads a generated OLD state (hand-written files incl. old formats and entries past expiry; or no file), applies generated changes through the real API (Set/edit/replace/Expire/Merge, Log/notify pipeline/Merge, bulk up to 300, thorough 4000 entries = single writes of up to several 100 KiB), then runs the real Maintenance(interval, file, stopc, nil) of both stores: shutdown snapshot only, or one tick snapshot + further changes + shutdown snapshot. The traced history of the data directory is replayed into the file-system model (durable + pending bytes per inode; fsync makes durable; rename rebinds atomically and may precede unsynced data); for EVERY crash point between two operations every disk state is materialised (pending changes applied as a prefix; the next write cut at 0, at every record boundary (sampled above 40/120) and at mid-record offsets) and the real loaders New(SnapshotFile) are started: must not error, and Query (all silences / every key of the log universe, proto.Equal) must equal EXACTLY the dump of the snapshot completed before the crash point or of the one in progress; entries past their expiry are free. Second life: in disk states that still hold a temporary file of the interrupted snapshot (all whole-write states, a third of the cut states, at most 60/400 per case) the restarted process takes its own shutdown snapshot in that directory and the process after it must start with exactly the restarted process's state. Unknown data-modifying syscalls, unexpected snapshot counts, helper failures => inconclusive. Non-trivial: >=1 enumerated state with a mid-record cut between the first write and the last rename. Distinct by scenario digest."
 	m := pbt.NewManual("C11", "C11Crash", rule)
 	var sc c11CrashScenario
 	if pbt.Replaying() {
@@ -765,6 +821,7 @@ func TestC11Crash(t *testing.T) {
 		tot.loads += st.loads
 		tot.midStates += st.midStates
 		tot.betweenMid += st.betweenMid
+		tot.secondLives += st.secondLives
 		classes := []string{"mode:" + sc.Mode, "ops:" + c11SizeClass(st.ops)}
 		if st.multiWrite {
 			classes = append(classes, "multi-write-snapshot")
@@ -780,6 +837,9 @@ func TestC11Crash(t *testing.T) {
 		if len(sc.OldSil) == 0 {
 			classes = append(classes, "no-old-silences-file")
 		}
+		if st.secondLives > 0 {
+			classes = append(classes, "second-life-snapshot-over-leftover-temp-file")
+		}
 		if c11HasLegacy(sc.OldSil) {
 			classes = append(classes, "old-format-in-old-file")
 		}
@@ -789,6 +849,7 @@ func TestC11Crash(t *testing.T) {
 		m.Set("loader_runs", tot.loads)
 		m.Set("mid_record_states", tot.midStates)
 		m.Set("mid_record_states_between_write_and_rename", tot.betweenMid)
+		m.Set("second_life_snapshots", tot.secondLives)
 		m.Set("inconclusive_cases", nInconclusive)
 		if len(vios) > 0 {
 			for _, v := range vios[1:] {
